@@ -201,13 +201,48 @@ def corpus_cases(prop):
     return out
 
 
+_TOL = re.compile(r"(~-?\d+)")
+
+
+def part_eq(x, y):
+    """equality of two result parts; numbers written `~n` may differ by 2 (rounded floats)"""
+    if x == y:
+        return True
+    if "~" not in x or "~" not in y:
+        return False
+    px, py = _TOL.split(x), _TOL.split(y)
+    if len(px) != len(py):
+        return False
+    for a, b in zip(px, py):
+        if a == b:
+            continue
+        if a.startswith("~") and b.startswith("~"):
+            try:
+                if abs(int(a[1:]) - int(b[1:])) <= 2:
+                    continue
+            except ValueError:
+                pass
+        return False
+    return True
+
+
+def res_eq(impl, other):
+    """impl result vs model/spec result: space separated parts; a part `-` in `other` is not compared"""
+    if impl == other:
+        return True
+    pi, po = impl.split(" "), other.split(" ")
+    if len(pi) != len(po):
+        return False
+    return all(o == "-" or part_eq(i, o) for i, o in zip(pi, po))
+
+
 def compare(cases, impl, model):
     """-> list of (index, kind) with kind in {'spec','model'}"""
     bad = []
     for i, (c, r, (m, s)) in enumerate(zip(cases, impl, model)):
-        if s != "-" and r != s:
+        if s != "-" and not res_eq(r, s):
             bad.append((i, "spec"))
-        elif r != m:
+        elif not res_eq(r, m):
             bad.append((i, "model"))
     return bad
 
@@ -221,9 +256,9 @@ def _mismatch_kind(ctx, line):
         m, s = run_model(ctx, [line])[0]
     except Exception:
         return None
-    if s != "-" and r != s:
+    if s != "-" and not res_eq(r, s):
         return "spec"
-    if r != m:
+    if not res_eq(r, m):
         return "model"
     return None
 
@@ -343,7 +378,7 @@ def replay(path):
             line = c["case"]
             r = run_impl(ctx, [line], "r")[0]
             m, s = run_model(ctx, [line])[0]
-            agree = (r == m) and (s == "-" or r == s)
+            agree = res_eq(r, m) and (s == "-" or res_eq(r, s))
             print(f"case:  {line}\nimpl:  {r}\nmodel: {m}\nspec:  {s}\n=> {'agree' if agree else 'DISAGREE'}")
             if not agree:
                 status = 1
